@@ -317,7 +317,8 @@ hook_toplinked = wrap(_c20)
 
 
 # ------------------------------------------------------------------------------- C09 / C10
-READ_ONLY_OPS = ("Paginate", "PagLinks", "Reopen")
+READ_ONLY_OPS = ("Paginate", "PagLinks")
+PAGE_INSERTIONS = ("AddPage", "AddPages", "AddLinks", "IndexBatchCrawl")
 
 
 def _tok(ret):
@@ -333,7 +334,10 @@ def _pagination(ix, driver, i, op, res):
     st = getattr(ix, "pagstate", None)
     q = {}
     if op is not None and op["op"] == "Paginate" and not op["token"]:
-        st = ix.pagstate = {"id": op["id"], "ps": list(op["ps"]), "sofar": [], "through": None, "cthrough": None}
+        st = ix.pagstate = {"id": op["id"], "ps": list(op["ps"]), "sofar": [], "through": None, "cthrough": None,
+                            "pure": True}
+    elif op is not None and st is not None and op["op"] not in PAGE_INSERTIONS and op["op"] != "Paginate":
+        st["pure"] = False      # C09 quantifies over page insertions between calls, nothing else
     if op is not None and op["op"] in ("Clear", "Recreate"):
         st = ix.pagstate = None
     if st is not None:
@@ -348,7 +352,7 @@ def _pagination(ix, driver, i, op, res):
             row = {"exc": res["exc"], "done": bool(ret.get("done", False)), "pages": pages,
                    "count": ret.get("count", -1), "ccount": ret.get("count_crawled", -1),
                    "sofar": list(st["sofar"]), "wpages": [{"l": l, "cr": c} for l, c in wp],
-                   "through": sorted(st["through"]), "cthrough": sorted(st["cthrough"])}
+                   "through": sorted(st["through"]), "cthrough": sorted(st["cthrough"]), "pure": st["pure"]}
             row.update(_tok(ret))
             q["pag"] = row
             st["sofar"] += [p["l"] for p in pages]
